@@ -131,6 +131,7 @@ I1 == {"a", " ", "*", "`", "\\"}
 I2 == {"a", "*", "`", "<", ">", "/"}
 I3 == {"a", ":", "<", ">", "*", "`"}
 I4 == {"a", " ", "`", "<", ">", "\\", "_"}
+I5 == {"a", ":", "<", ">", "\\"}                 \* backslashes before autolinks (the shortest, "\\<aa:>" behind an escaped backslash, has 7 characters)
 E1 == {"&", "#", "3", "5", ";", "a", "x"}        \* numeric references, decimal and hexadecimal
 E2 == {"&", "a", "m", "p", ";", "l", "t"}        \* named references
 E3 == {"&", "#", "4", "2", ";", "*"}             \* a "*" written as a reference is no delimiter
